@@ -334,7 +334,7 @@ class CallMixin:
                 f = ast.literal_eval(a)
                 p.heap['f:' + f] = fresh('hv_' + f, A1(Val))
         elif isinstance(m, ast.Call) and isinstance(m.func, ast.Name) and m.func.id == 'dicts':
-            for nm in ('$dom', '$val', '$card', '$ord', '$clock'):
+            for nm in ('$dom', '$val', '$card', '$ord', '$clock', '$dq', '$dqh', '$dqt'):
                 harr(p, nm)
                 p.heap[nm] = fresh('hv_' + nm[1:], SPECIAL[nm])
         elif isinstance(m, ast.Call) and isinstance(m.func, ast.Name) and m.func.id == 'allocates':
@@ -387,6 +387,10 @@ class CallMixin:
                   'ListBytes': 'bytes'}[t]
             return VList(fresh(name, z3.SeqSort(KSORT[ek])), ek)
         if isinstance(t, tuple) and t[0] == 'Ref':
+            if t[1] == 'obj':
+                r = VRef(fresh(name, I), None)
+                self.wf_value(p, r)
+                return r
             r = VRef(fresh(name, I), t[1])
             self.wf_value(p, r)
             p.assume(z3.Select(harr(p, '$cls'), r.t) == cls_code(t[1]))
@@ -488,7 +492,7 @@ class CallMixin:
                   'ListBytes': 'bytes'}[t]
             return VList(term, ek)
         if isinstance(t, tuple) and t[0] == 'Ref':
-            return VRef(term, t[1])
+            return VRef(term, None if t[1] == 'obj' else t[1])
         raise Unsupported('value_of_type %r' % (t,))
 
     def coerce_to(self, v, t):
@@ -609,6 +613,92 @@ class CallMixin:
             return [Res(p, VInt(z3.If(z3.And(v.is_('bool'), v.get('bool')), 1, z3.If(v.is_('int'), v.get('int'), 0))))]
         return [Res(p, VInt(as_int(v)))]
 
+    def _ref_arg(self, node, p, fc, i=0):
+        v = self.ev(node.args[i], p, fc)[0].v
+        if isinstance(v, VUnion):
+            v = VRef(v.get('ref'))
+        return v
+
+    def sp_dq_head(self, node, p, fc):
+        return [Res(p, VInt(z3.Select(harr(p, '$dqh'), self._ref_arg(node, p, fc).t)))]
+
+    def sp_dq_tail(self, node, p, fc):
+        return [Res(p, VInt(z3.Select(harr(p, '$dqt'), self._ref_arg(node, p, fc).t)))]
+
+    def sp_dq_at(self, node, p, fc):
+        d = self._ref_arg(node, p, fc)
+        j = self.ev(node.args[1], p, fc)[0].v
+        return [Res(p, VRef(z3.Select(harr(p, '$dq'), d.t, as_int(self.spec_coerce(j)))))]
+
+    def sp_dq_len(self, node, p, fc):
+        d = self._ref_arg(node, p, fc)
+        return [Res(p, VInt(z3.Select(harr(p, '$dqt'), d.t) - z3.Select(harr(p, '$dqh'), d.t)))]
+
+    def sp_is_fresh(self, node, p, fc):
+        """is_fresh(x): x is an object allocated during this call (not alive in the pre-state)"""
+        v = self._ref_arg(node, p, fc)
+        if fc.old is None:
+            raise Unsupported('is_fresh outside a contract')
+        env, heap, epoch = fc.old
+        n0 = heap.get('$next', z3.Int('H%s_$next' % epoch))
+        return [Res(p, VBool(z3.And(v.t >= n0, v.t < next_ref(p))))]
+
+    def sp_fn(self, node, p, fc):
+        """fn('qualified.name'): the code of a repo function as stored in timers (t_fn)"""
+        return [Res(p, VInt(fn_code(ast.literal_eval(node.args[0]))))]
+
+    def sp_wf_states(self, node, p, fc):
+        """the three state objects of a protocol: classes as the REAL constructors of the protocol's class build
+        them (derived by symbolic execution of __init__ on every run), back-pointers, and state in {IDLE,
+        CONNECTING, CONNECTED}"""
+        v = self.ev(node.args[0], p, fc)[0].v
+        if not isinstance(v, VRef) or v.cls is None:
+            raise Unsupported('wf_states needs a protocol reference of known class')
+        table = self.state_table(v.cls)
+        terms = []
+        refs = {}
+        for name in ('IDLE', 'CONNECTING', 'CONNECTED'):
+            u = load_value(p, name, v.t)
+            r = u.get('ref')
+            refs[name] = r
+            terms.append(u.is_('ref'))
+            terms.append(z3.Select(harr(p, '$cls'), r) == cls_code(table[name]))
+            terms.append(z3.And(r > 0, r < next_ref(p)))
+            back = load_value(p, 'protocol', r)
+            terms.append(z3.And(back.is_('ref'), back.get('ref') == v.t))
+        terms.append(z3.Distinct(refs['IDLE'], refs['CONNECTING'], refs['CONNECTED']))
+        st = load_value(p, 'state', v.t)
+        terms.append(z3.And(st.is_('ref'), z3.Or(*[st.get('ref') == r for r in refs.values()])))
+        return [Res(p, VBool(z3.And(*terms)))]
+
+    def state_table(self, cls):
+        if not hasattr(self, '_state_tables'):
+            self._state_tables = {}
+        if cls not in self._state_tables:
+            from .verify import Engine as E2
+            sub = E2(self.repo, self.specs)
+            q = Path()
+            fc = FnCtx(None, 'ctor:' + cls)
+            fac = sub.fresh_of_type(q, 'factory', ('Ref', 'mqtt.client.factory.MQTTFactory'))
+            addr = VObj(fresh('addr', I))
+            cv = VClass(cls, repo_cls=self.repo.classes[cls])
+            rs = sub.instantiate(cv, [fac, addr], {}, q, fc, ast.parse('P(f, a)', mode='eval').body)
+            oks = [r for r in rs if r.exc is None]
+            if len(oks) != 1 or len(rs) != 1:
+                raise Unsupported('constructor of %s forks or raises' % cls)
+            r = oks[0]
+            tab = {}
+            for name in ('IDLE', 'CONNECTING', 'CONNECTED', 'state'):
+                u = load_value(r.p, name, r.v.t)
+                cs = sub.cases(r.p, u)
+                if len(cs) != 1 or not isinstance(cs[0][1], VRef):
+                    raise Unsupported('constructor of %s: %s not a single object' % (cls, name))
+                cc = sub.classof(cs[0][0], cs[0][1])
+                tab[name] = cc[0][1]
+                tab[name + '#ref'] = cs[0][1].t
+            self._state_tables[cls] = tab
+        return self._state_tables[cls]
+
     def sp_lb(self, node, p, fc):
         """lb(b1, b2, ...): list of byte strings"""
         vs = [self.ev(a, p, fc)[0].v for a in node.args]
@@ -643,11 +733,13 @@ class CallMixin:
             v = VRef(v.get('ref'))
         if isinstance(v, VRef):
             if v.cls == 'deque':
-                return [Res(p, VInt(z3.Length(self.deque_items(p, v))))]
+                return [Res(p, VInt(z3.Select(harr(p, '$dqt'), v.t) - z3.Select(harr(p, '$dqh'), v.t)))]
             c = z3.Select(harr(p, '$card'), v.t)
             return [Res(p, VInt(c))]
         if isinstance(v, VTuple):
             return [Res(p, VInt(len(v.items)))]
+        if type(v).__name__ == 'VKeys':
+            return [Res(p, VInt(v.n))]
         raise Unsupported('spec len of %r' % (v,))
 
     def sp_utf8(self, node, p, fc):
